@@ -17,7 +17,11 @@ INFO_KEYS = {"depth", "seldepth", "time", "nodes", "nps", "score", "multipv", "p
 def classify(line):
     if line == "uciok": return "<uciok"
     if line == "readyok": return "<readyok"
-    if line.startswith("bestmove"): return "<bestmove" if BEST_RE.match(line) else "<bad"
+    if line.startswith("bestmove"):
+        m = BEST_RE.match(line)
+        # a "move" from a square to itself is not a move of the protocol (the null move is written 0000)
+        if m and m.group(1) != "0000" and m.group(1)[:2] == m.group(1)[2:4]: return "<bad"
+        return "<bestmove" if m else "<bad"
     if line.startswith("info string"): return "<str"
     if line.startswith("info "):
         t = line.split()
@@ -49,7 +53,7 @@ def gen_script(rng, fens, games):
             g = rng.choice(games)
             sc.append(("position startpos moves " + " ".join(g) if g else "position startpos", ">other", "none"))
             groups = [rng.choice([["depth", str(rng.randrange(1, 5))], ["nodes", str(rng.choice([1, 500, 3000]))], ["movetime", str(rng.choice([1, 30]))], ["mate", "1", "depth", "3"]])]
-            if rng.random() < 0.5: groups = [["wtime", "300"], ["btime", "300"], ["winc", "10"], ["binc", "10"]] + ([["movestogo", "2"]] if rng.random() < 0.5 else [])
+            if rng.random() < 0.5: groups = [["wtime", "300"], ["btime", "300"], ["winc", "10"], ["binc", "10"]] + ([["movestogo", rng.choice(["2", "1", "0", "40"])]] if rng.random() < 0.6 else [])
             if rng.random() < 0.7: groups.append(["searchmoves"] + rng.sample(["e2e4", "d2d4", "g1f3", "e7e5", "g8f6", "b8c6", "a7a6", "f1b5", "c2c4"], 3))
             pond = rng.random() < 0.25
             if pond: groups.append(["ponder"])
@@ -64,6 +68,10 @@ def gen_script(rng, fens, games):
             # numbers that do not fit an int: the limit is ignored or clamped, never fatal; the search is ended by `stop`
             sc.append((f"go {rng.choice(['nodes', 'depth', 'movetime', 'wtime', 'mate', 'movestogo'])} {rng.choice([5000000000, 99999999999, -99999999999, 2147483648])}", ">go", "short"))
             sc.append(("stop", ">stop", "none")); sc.append(("isready", ">isready", "sync"))
+        if rng.random() < 0.5:
+            # a root without legal moves: exactly one answer, and it is the null move `0000`
+            sc.append((f"position fen {rng.choice(SELF_ENDING[2:4])}", ">other", "none"))
+            sc.append((rng.choice(["go depth 3", "go movetime 20", "go nodes 100", "go wtime 300 btime 300"]), ">go", "best"))
         if rng.random() < 0.6:
             # a ponder search that ends by itself (mated / stalemated root, forced mate) holds its result; `ponderhit` must release it at once
             sc.append((f"position fen {rng.choice(SELF_ENDING)}", ">other", "none"))
@@ -121,7 +129,7 @@ def gen_script(rng, fens, games):
             if y < 0.3: lim = f"depth {rng.randrange(1, 4 if throttled else 7)}"
             elif y < 0.45: lim = f"nodes {rng.choice([1, 100, 3000])}"
             elif y < 0.6: lim = f"movetime {rng.choice([1, 20, 60])}"
-            elif y < 0.72: lim = f"wtime {rng.choice([1, 100, 3000])} btime {rng.choice([1, 100, 3000])} winc {rng.choice([0, 20])} binc 0" + (f" movestogo {rng.choice([1, 30])}" if rng.random() < 0.5 else "")
+            elif y < 0.72: lim = f"wtime {rng.choice([1, 100, 3000])} btime {rng.choice([1, 100, 3000])} winc {rng.choice([0, 20])} binc 0" + (f" movestogo {rng.choice([1, 30, 0])}" if rng.random() < 0.5 else "")
             elif y < 0.78: lim = f"mate {rng.randrange(1, 3)} depth 4"
             elif y < 0.9: lim = "infinite"; i = True
             else: lim = "wtime 2000 btime 2000"
